@@ -469,6 +469,12 @@ func (e *Env) valEq(a, b Val, x Expr) string {
 			return eq(a.T, bb.T)
 		}
 	case VPtr:
+		if a.Root == rootObj && len(a.Path) > 0 {
+			// interior pointer: nil exactly when the object pointer is nil (Go would already have panicked)
+			if bb, ok := b.(VInt); ok && bb.T == "0" {
+				return eq(a.Ref, "0")
+			}
+		}
 		if a.Root == rootObj && len(a.Path) == 0 {
 			switch bb := b.(type) {
 			case VInt:
@@ -551,6 +557,10 @@ func (e *Env) call(x ECall) Val {
 			parts = append(parts, fmt.Sprintf("(forall ((%s Int)) (! (=> (not (= %s %s)) (= (select %s %s) (select %s %s))) :pattern ((select %s %s))))", b, b, base, now, b, old, b, now, b))
 		}
 		return VBool{and(parts...)}
+	case "isfresh": // the slice's backing array was allocated after the old() state
+		if sl, ok := e.eval(x.Args[0]).(VSlice); ok {
+			return VBool{le(e.old.nextRef, sl.Base)}
+		}
 	case "ptr": // ptr(r, "T"): the Int r viewed as a pointer to a T
 		if lit, ok := x.Args[1].(EStr); ok {
 			t := c.eng.lookupType(lit.V)
@@ -633,6 +643,9 @@ func (e *Env) call(x ECall) Val {
 		}
 		if sf.Rec {
 			return c.eng.recApp(e, sf, args)
+		}
+		if sf.Opaque {
+			return c.eng.predApp(e, sf, args)
 		}
 		if e.depth > 40 {
 			sfail("spec function expansion too deep at %s", x.Fn)
